@@ -430,6 +430,9 @@ def foreign_family(pt, tier):
         if (d.src == "s") != (pt.side == "c") and len(d.data) >= 36:
             to_target = TO_CLIENT if pt.side == "c" else TO_SERVER
             out.append(("reflected datagram type %d" % d.data[12], "the target's own datagram reflected with the direction magic rewritten", to_target + d.data[4:]))
+            # ... and byte for byte as the target sent it (valid ciphertext under the session key; only the direction
+            # identifier in the authenticated header says that it was not made by the peer)
+            out.append(("reflected datagram type %d, unchanged" % d.data[12], "the target's own datagram reflected unchanged", d.data))
     return out
 
 
